@@ -23,6 +23,7 @@ EINTR — the latter two since the `fix:` commit fcfcfbe).
 import A10Verif.Lemmas.OpResults
 import A10Verif.Model.Life
 import A10Verif.Lemmas.Blocked
+import A10Verif.Props.C02
 
 namespace A10.OpSys
 open A10
@@ -429,5 +430,149 @@ theorem C03_blocked_idle_witness :
 /-- …and the next poll that returns (whatever the kernel answers) wakes it. -/
 theorem C03_blocked_idle_next_poll : ((afterEnter idleWitness []).wakeBlocked).2 = [12] := by
   decide
+
+end A10.Life
+
+/-! ## Whole batches in the multi-operation system (session 5) -/
+
+namespace A10.Life
+open A10
+
+/-- `c` makes operation `o` ready: its final completion, or any completion of a multishot one. -/
+def readies (o : Op) (c : Cqe) : Bool := !fMore c.flags || o.multi
+
+/-- The effect fold of `Sys.process`. -/
+def accEffs (i : Nat) (effs : List Eff) (a : Acc) : Acc :=
+  effs.foldl (fun (a : Acc) e =>
+    match e with
+    | .wake w => { a with wakes := a.wakes ++ [w] }
+    | .free => { a with frees := a.frees ++ [i] }
+    | _ => a) a
+
+theorem accEffs_wakes_mono (i : Nat) (effs : List Eff) : ∀ (a : Acc) (w : Nat), w ∈ a.wakes →
+    w ∈ (accEffs i effs a).wakes := by
+  induction effs with
+  | nil => intro a w h; exact h
+  | cons e es ih =>
+    intro a w h
+    simp only [accEffs, List.foldl_cons]
+    apply ih
+    cases e <;> simp [h]
+
+theorem accEffs_wake_mem (i : Nat) (effs : List Eff) (a : Acc) (w : Nat) (h : Eff.wake w ∈ effs) :
+    w ∈ (accEffs i effs a).wakes := by
+  induction effs generalizing a with
+  | nil => simp at h
+  | cons e es ih =>
+    simp only [accEffs, List.foldl_cons]
+    rcases List.mem_cons.mp h with rfl | h'
+    · exact accEffs_wakes_mono i es _ w (by simp)
+    · exact ih _ h'
+
+theorem process_wakes_mono (s : Sys) (a : Acc) (c : Cqe) (w : Nat) (h : w ∈ a.wakes) :
+    w ∈ (s.process a c).2.wakes := by
+  unfold Sys.process
+  split
+  · exact h
+  · split
+    · exact h
+    · split
+      · exact h
+      · split
+        · exact h
+        · exact accEffs_wakes_mono _ _ a w h
+
+theorem processAll_wakes_mono (cs : List Cqe) : ∀ (s : Sys) (a : Acc) (w : Nat), w ∈ a.wakes →
+    w ∈ (processAll s a cs).2.wakes := by
+  induction cs with
+  | nil => intro s a w h; exact h
+  | cons c cs ih =>
+    intro s a w h
+    have : processAll s a (c :: cs) = processAll (s.process a c).1 (s.process a c).2 cs := by
+      simp [processAll]
+    rw [this]
+    exact ih _ _ w (process_wakes_mono s a c w h)
+
+/-- One step: a ready-making completion of a running operation with a stored waker wakes it. -/
+theorem process_wakes_ready (s : Sys) (a : Acc) (c : Cqe) (i : Nat) (o : Op) (r : Results) (w : Nat)
+    (ho : s.ops[i]? = some o) (hst : o.status = .running r) (hw : o.waker = some w)
+    (hc : addressed i c = true) (hr : readies o c = true) :
+    w ∈ (s.process a c).2.wakes := by
+  simp only [addressed, Bool.and_eq_true, Bool.not_eq_true', decide_eq_true_eq] at hc
+  obtain ⟨hs, hud⟩ := hc
+  have hupd : ∃ o' effs, o.update ⟨c.res, c.flags⟩ = some (o', effs) ∧ Eff.wake w ∈ effs := by
+    cases o with
+    | mk multi status waker boxLive resInit futLive frees resDrops =>
+    simp at hst hw; subst hst hw
+    simp only [readies, Bool.or_eq_true, Bool.not_eq_true'] at hr
+    cases hm : fMore c.flags <;> cases multi <;> simp [Op.update, hm] at hr ⊢ <;>
+      exact ⟨_, _, ⟨rfl, rfl⟩, by simp⟩
+  obtain ⟨o', effs, hu, hmem⟩ := hupd
+  unfold Sys.process
+  simp only [hs, Bool.false_eq_true, if_false, hud, getOp, ho, hu]
+  exact accEffs_wake_mem i effs a w hmem
+
+/-- One step: a completion of the operation that does not make it ready leaves it running with
+the same waker. -/
+theorem upd1_not_ready (o : Op) (c : Cqe) (r : Results) (w : Nat)
+    (hst : o.status = .running r) (hw : o.waker = some w) (hr : readies o c = false) :
+    ∃ r', (upd1 o c).status = .running r' ∧ (upd1 o c).waker = some w ∧
+      (upd1 o c).multi = o.multi := by
+  cases o with
+  | mk multi status waker boxLive resInit futLive frees resDrops =>
+  simp at hst hw; subst hst hw
+  simp only [readies, Bool.or_eq_false_iff, Bool.not_eq_false'] at hr
+  obtain ⟨hm, hmu⟩ := hr
+  subst hmu
+  simp [upd1, Op.update, hm]
+
+/-- **No lost wake-up in any batch.** An operation that returned `Pending` (it is `Running`, its
+waker `w` is stored) is woken by the `Ring::poll` call whose batch contains the first completion
+that makes it ready — its final completion, or any completion for a multishot operation — wherever
+that completion stands in the batch, and whatever completions of other operations, bookkeeping
+completions, `F_SKIP` entries and earlier non-final completions of its own surround it. -/
+theorem C03_batch_wakes_ready (cs : List Cqe) : ∀ (s : Sys) (a : Acc) (i : Nat) (o : Op)
+    (r : Results) (w : Nat),
+    s.ops[i]? = some o → o.status = .running r → o.waker = some w →
+    (∃ c ∈ cs, addressed i c = true ∧ readies o c = true) →
+    w ∈ (processAll s a cs).2.wakes := by
+  induction cs with
+  | nil => intro s a i o r w _ _ _ h; simp at h
+  | cons c cs ih =>
+    intro s a i o r w ho hst hw hex
+    have hstep : processAll s a (c :: cs) = processAll (s.process a c).1 (s.process a c).2 cs := by
+      simp [processAll]
+    rw [hstep]
+    by_cases hnow : addressed i c = true ∧ readies o c = true
+    · exact processAll_wakes_mono cs _ _ w (process_wakes_ready s a c i o r w ho hst hw hnow.1 hnow.2)
+    · have htail : ∃ c' ∈ cs, addressed i c' = true ∧ readies o c' = true := by
+        obtain ⟨c', hc', h1, h2⟩ := hex
+        rcases List.mem_cons.mp hc' with rfl | hc''
+        · exact absurd ⟨h1, h2⟩ hnow
+        · exact ⟨c', hc'', h1, h2⟩
+      have hget := process_get s a c i
+      by_cases had : addressed i c = true
+      · have hnr : readies o c = false := by
+          cases h : readies o c
+          · rfl
+          · exact absurd ⟨had, h⟩ hnow
+        obtain ⟨r', e1, e2, e3⟩ := upd1_not_ready o c r w hst hw hnr
+        rw [had, ho] at hget
+        simp only [if_true, Option.map] at hget
+        refine ih _ _ i (upd1 o c) r' w hget e1 e2 ?_
+        obtain ⟨c', hc', h1, h2⟩ := htail
+        exact ⟨c', hc', h1, by simpa [readies, e3] using h2⟩
+      · have had' : addressed i c = false := by simpa using had
+        rw [had', ho] at hget
+        simp only [Bool.false_eq_true, if_false] at hget
+        exact ih _ _ i o r w hget hst hw htail
+
+/-- Non-vacuity: the final completion of operation 1 in the middle of a batch, after one of its
+own non-final completions, wakes waker 42. -/
+example :
+    let s : Sys := { ops := [{ multi := true, status := .running (.multi []), waker := some 7 },
+                             { multi := false, status := .running (.single ⟨0, 0⟩), waker := some 42 }] }
+    let cs : List Cqe := [⟨.op 1, 3, 2⟩, ⟨.reserved 1, 0, 0⟩, ⟨.op 1, 0, 0⟩, ⟨.op 0, 1, 2⟩]
+    (processAll s {} cs).2.wakes = [42, 7] := by decide
 
 end A10.Life
